@@ -2812,11 +2812,18 @@ impl<I: SignedInteger> FromBitStreamUsing for Residuals<I> {
         ) -> Result<Vec<ResidualPartition<RICE_MAX, I>>, Error> {
             let partition_order = reader.read::<4, u32>()?;
             let partition_count = 1 << partition_order;
+            let partition_len = block_size / partition_count;
+
+            // the partitions must tile the block exactly and the first
+            // one must still hold residuals after the warm-up samples
+            if !block_size.is_multiple_of(partition_count) || partition_len <= predictor_order {
+                return Err(Error::InvalidPartitionOrder);
+            }
 
             (0..partition_count)
                 .map(|p| {
                     reader.parse_using(
-                        (block_size / partition_count)
+                        partition_len
                             .checked_sub(if p == 0 { predictor_order } else { 0 })
                             .ok_or(Error::InvalidPartitionOrder)?,
                     )
